@@ -193,6 +193,9 @@ def main():
             {"name": "reader-sim", "path": "scn/reader.c", "serves_properties": ["C10"], "kind_free_text": "libsquashfs readers over an in-memory file with fault hooks; thousands of API histories per second in one process"},
             {"name": "copy-sim", "path": "scn/copy.c", "serves_properties": ["C19"], "kind_free_text": "object copies vs twin objects, many lives per process, restart after a crash"},
             {"name": "pool-sim", "path": "scn/pool.c", "serves_properties": ["C09"], "kind_free_text": "real threadpool.c under the simos scheduler, many runs per process"},
+            {"name": "blockproc-sim", "path": "scn/blockproc.c + py/blockproc.py", "serves_properties": ["C02", "C08", "C09", "C13"],
+             "kind_free_text": "real block processor + block writer + fragment table + thread pool in-process over an in-memory image under the simos scheduler; "
+                               "serial-pool reference, hand decoding of every file, fault at the k-th allocation / compressor call / image write; second stage of the four checks"},
         ],
         "checks": [CHECKS[k] for k in sorted(CHECKS)],
         "not_applicable": sorted(na, key=lambda x: x["property_id"]),
